@@ -1,4 +1,6 @@
+import BppProofs.Lemmas.LU
 import BppProofs.Lemmas.Range
 import BppProofs.Lemmas.ScalarReal
+import BppProofs.Props.C05
 import BppProofs.Props.C20
 import BppProofs.Props.C20Measure
